@@ -239,7 +239,11 @@ def topology_face(ck, f, reject):
 
 
 def topology_cell(ck, f, reject):
-    need_names(f, ["duplicate", "n_halfedges", "n_edges"], None, "C11.topology")
+    """add_cell's closed-surface test on canonical forms: V = the collected halfedges (one mutable vector), sorted;
+    reject when adjacent_find(V) finds a halfedge used twice; reject unless |V| == 2 * |unique(V, same edge)|"""
+    import re
+    from .canon import Canon
+    cn = Canon(f)
     calls = [(b, i, x) for b, i, x in f.nodes(("call",)) if x.get("pn", "") in ("std::sort", "std::adjacent_find", "std::unique")]
     names = {x["pn"] for b, i, x in calls}
     roots = set()
@@ -250,22 +254,35 @@ def topology_cell(ck, f, reject):
                     roots.add(y["id"])
     ok = names == {"std::sort", "std::adjacent_find", "std::unique"} and len(roots) == 1
     (ck.ok if ok else lambda r, w, t: ck.violate(r, w, t, "C11.topology:add_cell:pipeline"))("C11.topology", f.where, "add_cell runs sort, adjacent_find and unique over one halfedge vector (%s)" % sorted(names))
+    # the sort precedes both searches
+    srt = [(b, i) for b, i, x in calls if x["pn"] == "std::sort"]
+    oth = [(b, i) for b, i, x in calls if x["pn"] != "std::sort"]
+    ok = bool(srt) and all(f.dominates(srt[0], o) for o in oth)
+    (ck.ok if ok else lambda r, w, t: ck.violate(r, w, t, "C11.topology:add_cell:sorted"))("C11.topology", f.where, "add_cell sorts the halfedge vector before adjacent_find and unique (both need equal elements adjacent)")
+    V = None
+    if len(roots) == 1:
+        V = cn.var({"k": "var", "id": list(roots)[0], "n": "?"})
     dup = twice = False
+    lam_ln = None
     for b, i, x in reject:
-        for cnd, pol in atoms(f, b):
-            if "duplicate" in cnd and "end()" in cnd and "!=" in cnd and pol is True:
+        for s_, pol, c in cn.facts(b):
+            if V and s_ == "(adjacent_find(%s.begin(), %s.end()) != %s.end())" % (V, V, V) and pol is True:
                 dup = True
-            if "(2 * n_edges)" in cnd and "n_halfedges" in cnd and "!=" in cnd and pol is True:
+            m = re.fullmatch(r"\(%s\.size\(\) != \(2 \* distance\(%s\.begin\(\), unique\(%s\.begin\(\), %s\.end\(\), \[lambda@(\d+)\]\)\)\)\)" % ((re.escape(V or "?"),) * 4), s_)
+            if m and pol is True:
                 twice = True
-    # unique predicate compares idx/2
+                lam_ln = int(m.group(1))
+    # the unique predicate identifies the two halfedges of one edge: a.idx()/2 == b.idx()/2 (or edge_handle equality)
     pred = False
     for g in f.fb.fns.values():
-        if g.kind == "lambda" and g.d.get("lambda_parent") == f.id and g.has_cfg:
-            s = " ".join(estr(x) for b, i, x in g.tops())
-            if "/ 2)" in s and "==" in s:
-                pred = True
+        if g.kind == "lambda" and g.has_cfg and g.file == f.file and g.line == lam_ln:
+            gc = Canon(g)
+            rets = [x for b, i, x in g.tops() if x.get("k") == "ret"]
+            ps = gc.s(rets[0].get("x")) if len(rets) == 1 else ""
+            pred = ps in ("((P0.idx() / 2) == (P1.idx() / 2))", "(P0.edge_handle() == P1.edge_handle())", "((P0.idx() >> 1) == (P1.idx() >> 1))")
+            pred_txt = ps
     (ck.ok if dup else lambda r, w, t: ck.violate(r, w, t, "C11.topology:add_cell:duplicate"))("C11.topology", f.where, "add_cell rejects a halfedge used twice (adjacent_find != end)")
-    (ck.ok if (twice and pred) else lambda r, w, t: ck.violate(r, w, t, "C11.topology:add_cell:matched"))("C11.topology", f.where, "add_cell rejects unless every halfedge is matched by its opposite (n_halfedges == 2 * edges, edge-wise unique predicate idx/2)")
+    (ck.ok if (twice and pred) else lambda r, w, t: ck.violate(r, w, t, "C11.topology:add_cell:matched"))("C11.topology", f.where, "add_cell rejects unless every halfedge is matched by its opposite (|V| == 2 * |unique(V)| under an edge-wise predicate idx/2 == idx/2)")
 
 
 def dedup(ck, c, f, reject):
